@@ -1236,10 +1236,37 @@ func runC10(c *Checker) {
 				}
 			}
 		})
+		// ... and conversely: whenever the server gives up waiting for the SYNACK and goes back to waiting
+		// for a SYN (any way back to the loop head from the region after the echo), the flag is set -
+		// otherwise the client, which may have completed, can never be recognised again (its SYNACK and
+		// data are ignored for ever; the only other legal reaction to an unexpected packet is an error)
+		okBack, nBack := true, 0
+		allInstrs(sh, func(in ssa.Instruction) {
+			phi, ok := in.(*ssa.Phi)
+			if !ok || !isRestartFlag(sh, phi) {
+				return
+			}
+			for i, e := range phi.Edges {
+				p := phi.Block().Preds[i]
+				if !(echoStore.Block() == p || echoStore.Block().Dominates(p)) {
+					continue
+				}
+				// only back edges into the wait-for-SYN loop head (the phi's block dominates the echo)
+				if !phi.Block().Dominates(echoStore.Block()) {
+					continue
+				}
+				nBack++
+				if !isBoolConstVal(e, true) {
+					okBack = false
+				}
+			}
+		})
+		c.decide(okBack && nBack > 0, "GBNHS-1", "serverHandshake|every restart after the echo sets the restart flag", sh.Pos(), fmt.Sprintf("%d ways back to the wait for SYN after the echo, all with the flag set", nBack),
+			"after echoing the SYN the server can go back to waiting for a SYN without setting the restart flag (e.g. on an unexpected packet): a client that has completed is never recognised, NewServerConn neither returns nor fails")
 		c.decide(okResent && nTrue > 0, "GBNHS-1", "serverHandshake|restart flag set only after a SYN was echoed", sh.Pos(), "every 'resent = true' is dominated by the SYN echo",
 			"the restart shortcut (accepting SYNACK/DATA) can be taken before any SYN was received: the server would enter the data phase with a window nobody proposed")
 	}
-	c.floor("GBNHS-1", 4)
+	c.floor("GBNHS-1", 5)
 
 	// ---- GBNHS-2 ----
 	var synackSend ssa.CallInstruction
